@@ -1532,6 +1532,16 @@ pub async fn run_conn(ctx: Rc<Ctx>, cmds: Vec<Value>) {
                             let ups: Vec<String> = (0..gn("up")).map(|i| format!("k{i}=v{i}")).collect();
                             ctx.emit(
                                 Ev::new("in_props")
+                                    // s: Remaining Length of the frame (what the in-flight limiter charges)
+                                    .s({
+                                        let plen = gn("plen").max(0) as usize;
+                                        let sent = p.get("send").and_then(Value::as_i64).map_or(plen, |v| v.max(0) as usize).min(plen);
+                                        let mut hdr = 1;
+                                        while hdr < b.len() && hdr < 5 && b[hdr] & 0x80 != 0 {
+                                            hdr += 1;
+                                        }
+                                        (b.len() - sent + plen).saturating_sub(hdr + 1) as i64
+                                    })
                                     .id(p.get("fill").and_then(Value::as_i64).unwrap_or(0x61))
                                     .q(gn("mei"))
                                     .r(gn("pfi"))
